@@ -147,7 +147,7 @@ class Report:
             'checker_cmd': checker_cmd,
             'trusted_base': self.trusted_base,
             'functions_under_contract': self.functions,
-            'obligation_list': [{k: o[k] for k in ('name', 'status', 'backend', 'seconds')} for o in self.obligations],
+            'obligation_list': [{k: o[k] for k in ('name', 'status', 'backend', 'seconds', 'detail') if k in o} for o in self.obligations],
             'bounded': {n: {'evaluations': d['evaluations'], 'distinct_nontrivial': len(d['nontrivial']), 'rule': d['rule'],
                             'bound': d['bound'], 'exhaustive': d['exhaustive'], 'samples': d['samples'],
                             'label': 'bounded stand-in: never counted as proved'} for n, d in self.bounded.items()},
